@@ -143,7 +143,8 @@ inductive Auth where
   | leaf (id : Nat) (headers : List Str)
   /-- `chain_authenticate(*members)` -/
   | chain (members : List Auth)
-  /-- `require_all(gate)` -/
+  /-- `require_all(gate)`: when the gate returns, so does the composition — an authenticated context, or an anonymous
+      one when the gate's claims say `verified == "false"`; neither is a rejection, so both are `Outcome.ok` here -/
   | gateOnly (g : Gate)
   /-- `require_all(gate, inner)` -/
   | requireAll (g : Gate) (inner : Auth)
